@@ -145,6 +145,14 @@ class VLoop(asyncio.SelectorEventLoop):
         return tr, protocol
 
     def _play(self, tr, request):
+        if callable(self.reply):
+            # the reply is computed from the request actually sent (e.g. by a reference agent)
+            fn = self.reply
+            self.reply = fn(request)
+            try:
+                return self._play(tr, request)
+            finally:
+                self.reply = fn
         s = tr.script
         kind = s["kind"]
         addr = tr.remote_addr or ("192.0.2.1", 161)
